@@ -16,6 +16,7 @@ pub fn run(ctx: &mut Ctx) {
     kzg_real_setup(ctx);
     marlin_trim(ctx);
     transparent_generators(ctx);
+    crate::generic::c09_reloaded_all(ctx);
     ctx.flush_model("C09");
 }
 
